@@ -21,6 +21,7 @@ class Violation:
 
 class BaseProp:
     coq_targets = []            # Proofs/*.vo needed by Props/<id>.v
+    extra_model_targets = []
     technique = 'Coq proof over the generated model + bit-exact correspondence'
     trusted_base = [
         'Coq 8.16.1 kernel and vm_compute (primitive floats / Uint63 for the executable binary64 instance); no native_compute',
@@ -76,7 +77,9 @@ class BaseProp:
     def step_proofs(self):
         pid = self.pid
         t = time.time()
-        ok, out = vlib.coq_make(self.coq_targets) if self.coq_targets else (True, '')
+        model_targets = ['ND/Base/F64Inst.vo'] + ['gen/Gen_%s.vo' % n for n in ('Float', 'Derivative', 'Dual', 'Dual2', 'Dual3', 'HyperDual',
+                                                                            'HyperHyperDual', 'DualVec', 'Dual2Vec', 'HyperDualVec')]
+        ok, out = vlib.coq_make(self.coq_targets + model_targets + self.extra_model_targets)
         errs = vlib.coq_errors(out) if not ok else []
         if not ok and not errs:
             if 'Timeout' in out or 'timed out' in out:
